@@ -23,7 +23,11 @@ TRUSTED = ["hand-written model Ebv.Parallel of ParallelEtherCat.run / LockFile /
            "operation traces, final shared state, first violating prefix of each clause and the Quiet hypothesis under explicit schedules",
            "harness/vh/props/c23.py: emulated file system / bpf object / netlink layer and the thread-per-participant scheduler",
            "ethertype range, bitmap size, slot count and window geometry regenerated into Ebv.Generated.Consts (probed on the real classes)"]
-ASSUMPTIONS = ["POSIX semantics as emulated: open('x')/O_EXCL atomic, rename(dir, dir) succeeds iff target absent or empty, rmdir iff empty, "
+ASSUMPTIONS = ["process identity and liveness are emulated: os.getpid() = 1000 + participant number (this is what the lock files contain), "
+               "os.kill(pid, 0) and reading a lock file are scheduling points; a participant listed in case['crash'] is dead after its last "
+               "scheduled operation (a dead one holds / installs / runs nothing for the oracle), ended ones are dead, all others alive; "
+               "the unchanged code calls neither, so the model has no liveness",
+               "POSIX semantics as emulated: open('x')/O_EXCL atomic, rename(dir, dir) succeeds iff target absent or empty, rmdir iff empty, "
                "lockf record locks per process, bpffs pin = name -> object, netlink IFLA_XDP_FD replaces / fd -1 detaches whatever is attached",
                "one scheduling point per call that touches shared state; makedirs(exist_ok), connect, EtherXDP(), close, sleep and the second "
                "os.open of the never-unlinked bitmap file commute with everything and are merged into the following operation; "
@@ -32,7 +36,8 @@ ASSUMPTIONS = ["POSIX semantics as emulated: open('x')/O_EXCL atomic, rename(dir
 RULE = ("case = 2-4 participants (scripted randrange draws for ethertype and FMMU slot, number of get_fmmu_addr calls, optional attach fault), "
         "optional pre-existing bitmap file (initialised with random bits / wrong length), explicit schedule of participant numbers: "
         "the five witness schedules, a family of split points of the last-leaver race, random burst / fine-grained / session-boundary "
-        "schedules; a participant left unscheduled is a crash; non-trivial = at least two participants performed 5+ operations")
+        "schedules, and the family 'one participant is killed holding its ethertype lock file, two others then start concurrently' "
+        "(every single preemption + random fine-grained interleavings); a participant left unscheduled is a crash; non-trivial = at least two participants performed 5+ operations")
 IF = "ifc23"
 LOCKDIR = f"/run/lock/ebpf.{IF}.lock"
 PIN = f"/sys/fs/bpf/{IF}/programs"
@@ -247,6 +252,7 @@ class Machine:
         self.s = Sched(n)
         self.tr = [[] for _ in range(n)]
         self.glob = []                # all operations in the order they happened
+        self.pos = 0                  # number of schedule entries consumed (for the emulated liveness)
         self.et_i = [0] * n
         self.fm_i = [0] * n
         self.et_fallback = [None] * n
@@ -292,6 +298,8 @@ class Machine:
         pid = self.s.pid()
         name = path.rsplit("/", 1)[1]
         et = name.split(".")[0]
+        if mode in ("r", "rt"):
+            return self.open_read(path, et)
         if mode not in ("x", "w"):
             raise AssertionError(f"unexpected open mode {mode}")
         self.s.gate()
@@ -315,6 +323,50 @@ class Machine:
             def write(s, text):
                 node.data += text.encode()
         return F()
+
+    def open_read(self, path, et):
+        """reading a lock file (its content is what the creator wrote: the emulated pid)"""
+        self.s.gate()
+        node = self.w.lookup(path)
+        if node is None or isinstance(node, dict):
+            self.emit(f"open_r:{et}:enoent")
+            raise FileNotFoundError(errno.ENOENT, "no such file", path)
+        self.emit(f"open_r:{et}:ok")
+        text = bytes(node.data).decode()
+
+        class R:
+            def __enter__(s):
+                return s
+
+            def __exit__(s, *a):
+                return False
+
+            def read(s, n=-1):
+                return text
+        return R()
+
+    PID0 = 1000
+
+    def getpid(self):
+        return self.PID0 + self.s.pid()
+
+    def alive(self, q):
+        """emulated liveness: a participant that has ended is dead; one listed in case["crash"] is killed after its last
+        scheduled operation; everybody else is alive (possibly just slow)"""
+        if not (0 <= q < len(self.phase)) or self.s.ended[q]:
+            return False
+        return not (q in self.case.get("crash", ()) and q not in self.case["sched"][self.pos:])
+
+    def kill(self, pid, sig):
+        if sig != 0:
+            raise AssertionError("only the liveness probe os.kill(pid, 0) is emulated")
+        self.s.gate()
+        q = pid - self.PID0
+        if q == self.s.pid() or self.alive(q):
+            self.emit("kill:alive")
+            return
+        self.emit("kill:dead")
+        raise ProcessLookupError(errno.ESRCH, "no such process")
 
     def rename(self, src, dst):
         self.s.gate()
@@ -537,7 +589,7 @@ def installed(m):
     async def connect(self):
         return None
     ebos = Proxy(_os, makedirs=m.makedirs, rename=m.rename, remove=m.remove, rmdir=m.rmdir,
-                 getpid=lambda: 1000 + m.s.pid())
+                 getpid=m.getpid, kill=m.kill)
     lkos = Proxy(_os, makedirs=m.makedirs, open=m.os_open, write=m.os_write, pread=m.os_pread, pwrite=m.os_pwrite,
                  ftruncate=m.os_ftruncate, close=m.os_close, remove=m.remove)
     patches = [
@@ -627,14 +679,14 @@ def observe(m, objs, info):
     st = []
     for pid in range(n):
         tr = m.tr[pid]
-        alive = m.phase[pid] not in ("done", "failed")
+        alive = m.phase[pid] not in ("done", "failed") and m.alive(pid)    # a killed process holds / installs / runs nothing
         member = install = joiner = False
         for t in tr:
             if t == "rename:ok":
                 member = install = True
             elif t == "rename:fail":
                 joiner = True
-            elif t.startswith("open_") and t.endswith(":ok") and joiner:
+            elif t.startswith(("open_x:", "open_w:")) and t.endswith(":ok") and joiner:
                 member = True
             elif t.startswith("remove_member") or t == "rmtree_lock":
                 member = False
@@ -642,7 +694,7 @@ def observe(m, objs, info):
                 install = False
         pe = objs.get(pid)
         st.append({
-            "running": m.phase[pid] == "running", "member": member and alive, "install": install and alive,
+            "running": m.phase[pid] == "running" and alive, "member": member and alive, "install": install and alive,
             "et": getattr(pe, "ethertype", None),
             "table": w.maps.get((pid, getattr(pe, "programs", None))),
             "win": info.get(pid) if m.phase[pid] == "running" else None,
@@ -662,7 +714,8 @@ def run_impl(case):
         for pid in range(n):
             m.s.settle(pid)
         obs = [observe(m, objs, info)]
-        for pid in case["sched"]:
+        for k, pid in enumerate(case["sched"]):
+            m.pos = k + 1
             if 0 <= pid < n:
                 m.s.grant(pid)
             obs.append(observe(m, objs, info))
@@ -879,6 +932,16 @@ def run(ctx):
         for j in (12, 16, 18):
             cases.append({"cfgs": [C(), C(et=[12288], fm=[7]), C(et=[12288, 12289], fm=[7])],
                           "sched": [0] * k + [1] * j + [0] * 7 + [1] * 4 + [2] * 18, "fm0": None})
+    # one participant crashes (is never scheduled again) holding its ethertype lock file; two others then start concurrently:
+    # every single preemption of the two starters, plus random fine-grained interleavings
+    for k in (7, 16):
+        for a in range(3, 13):
+            for b in range(3, 13, 2 if ctx.quick else 1):
+                cases.append({"cfgs": [C(), C(et=[12288], fm=[2]), C(et=[12289], fm=[3])], "crash": [0],
+                              "sched": [0] * k + [1] * a + [2] * b + [1] * 30 + [2] * 30, "fm0": None})
+        for _ in range(ctx.n(20, 600)):
+            cases.append({"cfgs": [C(), C(et=[12288], fm=[2]), C(et=[12289], fm=[3])], "crash": [0],
+                          "sched": [0] * k + [ctx.rng.choice([1, 1, 2, 2, 1, 2, 1]) for _ in range(70)], "fm0": None})
     for _ in range(ctx.n(500, 20000)):
         cases.append(gen(ctx.rng))
     cases += [dict(w) for w in FORMER_WITNESSES]
